@@ -71,6 +71,19 @@ def run_rng(master, prop, i):
     return random.Random(f"{master}:{prop}:{i}")
 
 
+class Blob(bytes):
+    """A plain subclass of bytes with nothing overridden (what HexBytes is to the
+    library): isinstance(x, bytes) holds, identity with interned bytes objects does not."""
+
+    __slots__ = ()
+
+
+def fresh(b):
+    """An equal but distinct bytes object (what a value read back from disk is): the
+    library must not rely on object identity of hashes and keys."""
+    return bytes(bytearray(b))
+
+
 def hx(b):
     return b.hex()
 
